@@ -44,9 +44,26 @@ func gen(t *rapid.T) Case {
 		c.D.StrSize = rapid.SampledFrom([]int{1, 5, 8}).Draw(t, "strsize")
 	}
 	maxExt := []int{24, 9, 5}[rank-1]
+	// two shapes no small extent reaches: more chunks than one byte counts, and chunks of 64 KiB and more
+	special := rapid.SampledFrom([]string{"", "", "", "", "", "", "", "", "", "", "", "", "", "", "", "", "", "", "", "", "", "", "manychunks", "bigchunk"}).Draw(t, "special")
+	switch special {
+	case "manychunks":
+		rank, maxExt = 1, 640
+	case "bigchunk":
+		rank, maxExt = 1, 3
+		c.D.Type, c.D.ArrDims, c.D.StrSize = "arr:f64", []uint64{rapid.SampledFrom([]uint64{8192, 8200, 12288}).Draw(t, "bigElem")}, 0
+	}
 	for i := 0; i < rank; i++ {
 		e := uint64(rapid.IntRange(1, maxExt).Draw(t, "extent"))
+		if special == "manychunks" {
+			e = uint64(rapid.IntRange(250, maxExt).Draw(t, "manyExtent"))
+		}
 		c.D.Dims = append(c.D.Dims, e)
+		if special == "manychunks" {
+			c.D.Chunk = append(c.D.Chunk, uint64(rapid.IntRange(1, 2).Draw(t, "smallChunk")))
+			c.D.MaxDims = append(c.D.MaxDims, hdf5.Unlimited)
+			continue
+		}
 		c.D.Chunk = append(c.D.Chunk, uint64(rapid.IntRange(1, int(e)).Draw(t, "chunk")))
 		switch rapid.IntRange(0, 2).Draw(t, "maxkind") {
 		case 0:
@@ -88,6 +105,9 @@ func gen(t *rapid.T) Case {
 		case "ok":
 			for d := range dims {
 				hi := uint64(maxExt + 3)
+				if special == "manychunks" {
+					hi = uint64(maxExt + 40)
+				}
 				if c.D.MaxDims[d] != hdf5.Unlimited && c.D.MaxDims[d] < hi {
 					hi = c.D.MaxDims[d]
 				}
